@@ -39,7 +39,44 @@ fn in_language(out: &[u8], bits: u128) -> bool {
 }
 
 
+fn collect_urls(n: &markdown_it::Node, out: &mut Vec<String>) {
+    use markdown_it::plugins::cmark::inline::{autolink::Autolink, image::Image, link::Link};
+    if let Some(l) = n.cast::<Link>() { out.push(l.url.clone()); }
+    if let Some(l) = n.cast::<Image>() { out.push(l.url.clone()); }
+    if let Some(l) = n.cast::<Autolink>() { out.push(l.url.clone()); }
+    for c in n.children.iter() { collect_urls(c, out); }
+}
+
+/// every destination the parser emits is a word of (safe | %XX)* over the shipped safe set
+fn documents(n: usize, rng: &mut Rng, rep: &mut Report) {
+    let md = crate::cfg::Cfg::cmark_only().build();
+    let (_, bits) = crate::corr::url::set_bits(crate::corr::url::DEFAULT_SAFE.as_bytes(), true);
+    let specials = ['%', '^', '`', '{', '|', '}', '!', '#', '$', '&', '\'', '*', '+', '/', '=', '?', '_', '~', '-', '.'];
+    for _ in 0..n {
+        let raw = gen_string(rng).replace(['\n', '\r', '<', '>', '\0'], "");
+        let d = match rng.below(6) {
+            0 => { let mut l = String::from("a"); for _ in 0..rng.range(1, 4) { l.push(*rng.pick(&specials)); l.push('b'); } format!("<{}@example.com>", l) }
+            1 => format!("<http://example.com/{}>", raw.replace(' ', "")),
+            2 => format!("[x](<{}>)", raw),
+            3 => format!("![x](/p{} \"t\")", raw.replace([' ', '(', ')'], "")),
+            4 => format!("[r]: <{}>\n\n[r]", raw),
+            _ => format!("[sale](/off/{}%{})", rng.range(1, 99), *rng.pick(&["", "2", "a", "G", "25", "%"])),
+        };
+        let input = format!("doc={}", hex(d.as_bytes()));
+        let tree = match guarded(|| md.parse(&d)) { Ok(t) => t, Err(_) => continue };
+        let mut urls = vec![];
+        collect_urls(&tree, &mut urls);
+        rep.stats.case(&input, !urls.is_empty());
+        for u in urls {
+            if !in_language(u.as_bytes(), bits) {
+                rep.violation("destination-alphabet", input.clone(), format!("emitted destination {:?} is not made of safe characters and well-formed %XX only", u));
+            }
+        }
+    }
+}
+
 pub fn run(n: usize, rng: &mut Rng, rep: &mut Report) {
+    documents(n / 2, rng, rep);
     for _ in 0..n {
         let s = gen_string(rng);
         let (_, bits) = gen_set(rng);
